@@ -404,7 +404,45 @@ func instrReaches(x, y ssa.Instruction) bool {
 var trivialCalleePkgs = map[string]bool{"fmt": true, "errors": true, "log/slog": true, "strings": true, "strconv": true, "sort": true, "slices": true, "maps": true, "bytes": true, "math": true, "math/bits": true, "unicode": true, "reflect": true, "encoding/json": true, "context": true, "net/netip": true, "net": true, "time": true, "runtime": true, "os": true, "regexp": true, "encoding/binary": true, "google.golang.org/protobuf/proto": true}
 var trivialCalleeNames = map[string]bool{"String": true, "Error": true, "Len": true, "MarshalJSON": true}
 
+// cloneSliceCall: the call makes a private copy of a slice or map: copy(dst, src), slices.Clone, maps.Clone,
+// append(<nil or empty>, src...). All of them are one kind of step ("clone"), so that rewriting one form into
+// another changes nothing while dropping the copy — working on the shared backing array instead — does.
+func cloneSliceCall(call *ssa.CallCommon) bool {
+	if b, ok := call.Value.(*ssa.Builtin); ok {
+		switch b.Name() {
+		case "copy":
+			return true
+		case "append":
+			if len(call.Args) != 2 {
+				return false
+			}
+			switch x := call.Args[0].(type) {
+			case *ssa.Const:
+				return x.IsNil()
+			case *ssa.Slice:
+				// xs[:0:0] or an empty literal
+				if k, ok := x.High.(*ssa.Const); ok && k.Value != nil && k.Value.String() == "0" {
+					return true
+				}
+			case *ssa.MakeSlice:
+				if k, ok := x.Len.(*ssa.Const); ok && k.Value != nil && k.Value.String() == "0" {
+					return true
+				}
+			}
+		}
+		return false
+	}
+	if cal := call.StaticCallee(); cal != nil {
+		n := cal.String()
+		return strings.HasPrefix(n, "slices.Clone") || strings.HasPrefix(n, "maps.Clone")
+	}
+	return false
+}
+
 func calleeName(c *Ctx, call *ssa.CallCommon) string {
+	if cloneSliceCall(call) {
+		return "clone"
+	}
 	if call.IsInvoke() {
 		m := call.Method
 		if trivialCalleeNames[m.Name()] {
